@@ -47,6 +47,7 @@ import (
 
 	"github.com/KafScale/platform/internal/testutil"
 	"github.com/KafScale/platform/internal/verifkit"
+	"github.com/KafScale/platform/pkg/acl"
 	"github.com/KafScale/platform/pkg/broker"
 	"github.com/KafScale/platform/pkg/metadata"
 	"github.com/KafScale/platform/pkg/protocol"
@@ -587,6 +588,7 @@ type c19PartObs struct {
 	Base    *int64 `json:"base_offset,omitempty"`
 	Writes  int    `json:"s3_writes_by_this_instance"`
 	Batch   string `json:"batch_id"`
+	ACL     string `json:"acl,omitempty"` // ACL cases: "denied" = the request's principal may not produce to this topic
 	Verdict string `json:"verdict"`
 }
 
@@ -594,6 +596,7 @@ type c19Step struct {
 	N      int          `json:"n"`
 	Op     string       `json:"op"`
 	Broker string       `json:"broker,omitempty"`
+	Who    string       `json:"principal,omitempty"`
 	Detail string       `json:"detail,omitempty"`
 	Parts  []c19PartObs `json:"partitions,omitempty"`
 	Events []string     `json:"lease_events,omitempty"`
@@ -634,6 +637,95 @@ type c19World struct {
 	nMixed      int
 	nUnnoticed  int
 	nHandover   int
+	// ACL cases (aclCfg == nil: the handlers keep their default, disabled authorizer, as in every other case)
+	aclCfg  *acl.Config
+	az      *acl.Authorizer // the oracle's OWN authorizer, built separately from the same config
+	whos    []c19Who        // principals a request of this case may carry (repeats = weight)
+	deniers []c19Who        // those of whos that are denied at least one of the case's topics
+	whoAll  c19Who          // a principal that may produce everywhere
+	next    *c19Who         // principal of the next produce (directed openings); nil = PRNG choice
+}
+
+// c19Who: how a request names its principal. Conn=true: the principal is attached to the connection
+// (broker.ConnContext, as the proxy-protocol / SASL path does; wins over the client id); otherwise it is
+// the request header's client id (None=true: no client id at all = principal "anonymous").
+type c19Who struct {
+	Name string
+	Conn bool
+	None bool
+}
+
+func (x c19Who) principal() string {
+	if x.None {
+		return "anonymous"
+	}
+	return x.Name
+}
+
+func (x c19Who) String() string {
+	switch {
+	case x.None:
+		return "anonymous (no client id)"
+	case x.Conn:
+		return x.Name + " (connection principal)"
+	}
+	return x.Name + " (client id)"
+}
+
+// denied: may the principal NOT produce to the topic, according to the oracle's own authorizer.
+func (w *c19World) denied(who *c19Who, topic string) bool {
+	if w.az == nil || who == nil {
+		return false
+	}
+	return !w.az.Allows(who.principal(), acl.ActionProduce, acl.ResourceTopic, topic)
+}
+
+// c19ACLSetup draws the ACL configuration of one ACL case. Two profiles: default-allow with deny rules,
+// default-deny with allow rules; rule names are exact topic names or a trailing-* prefix.
+func c19ACLSetup(rng *rand.Rand, tag string) (acl.Config, []c19Who, c19Who) {
+	ta, tb, tu := tag+"a", tag+"b", tag+"u"
+	prod := func(names ...string) []acl.Rule {
+		var out []acl.Rule
+		for _, n := range names {
+			out = append(out, acl.Rule{Action: acl.ActionProduce, Resource: acl.ResourceTopic, Name: n})
+		}
+		return out
+	}
+	cfg := acl.Config{Enabled: true}
+	var names []string
+	if rng.Intn(3) > 0 {
+		cfg.DefaultPolicy = "allow"
+		cfg.Principals = []acl.PrincipalRules{
+			{Name: "p-no-a", Deny: prod(ta)},
+			{Name: "p-no-b", Deny: prod(tb)},
+			{Name: "p-no-u", Deny: prod(tu)},
+			{Name: "p-no-ab", Deny: prod(ta, tb)},
+			{Name: "p-no-bu", Deny: []acl.Rule{{Action: acl.ActionAny, Resource: acl.ResourceTopic, Name: tb}, {Action: acl.ActionProduce, Resource: acl.ResourceAny, Name: tu + "*"}}},
+			{Name: "p-fetch-only-a", Allow: []acl.Rule{{Action: acl.ActionFetch, Resource: acl.ResourceTopic, Name: ta}}, Deny: prod(ta)},
+			{Name: "p-all", Allow: []acl.Rule{{Action: acl.ActionAny, Resource: acl.ResourceAny, Name: "*"}}},
+		}
+		names = []string{"p-no-a", "p-no-a", "p-no-b", "p-no-b", "p-no-u", "p-no-ab", "p-no-bu", "p-fetch-only-a"}
+	} else {
+		cfg.DefaultPolicy = "deny"
+		cfg.Principals = []acl.PrincipalRules{
+			{Name: "p-only-a", Allow: prod(ta)},
+			{Name: "p-only-b", Allow: prod(tb)},
+			{Name: "p-only-ab", Allow: prod(ta, tb)},
+			{Name: "p-only-au", Allow: prod(ta, tu)},
+			{Name: "p-case-but-b", Allow: prod(tag + "*"), Deny: prod(tb)},
+			{Name: "p-all", Allow: []acl.Rule{{Action: acl.ActionAny, Resource: acl.ResourceAny, Name: "*"}}},
+		}
+		names = []string{"p-only-a", "p-only-a", "p-only-b", "p-only-b", "p-only-ab", "p-only-au", "p-case-but-b"}
+	}
+	// this case's principals: 3 restricted ones (PRNG), the unrestricted one, and a request without client id
+	rng.Shuffle(len(names), func(i, j int) { names[i], names[j] = names[j], names[i] })
+	var whos []c19Who
+	for _, n := range names[:3] {
+		whos = append(whos, c19Who{Name: n, Conn: rng.Intn(3) == 0}, c19Who{Name: n, Conn: rng.Intn(3) == 0})
+	}
+	all := c19Who{Name: "p-all", Conn: rng.Intn(3) == 0}
+	whos = append(whos, all, c19Who{None: true})
+	return cfg, whos, all
 }
 
 func c19Topic(name string, parts int32, leader int32) protocol.MetadataTopic {
@@ -644,11 +736,22 @@ func c19Topic(name string, parts int32, leader int32) protocol.MetadataTopic {
 	return t
 }
 
-func (e *c19Env) newWorld(ci int, autoCreate bool, partsA, partsB int32) *c19World {
+func (e *c19Env) newWorld(ci int, autoCreate bool, partsA, partsB int32, aclRng *rand.Rand) *c19World {
 	e.seq++
 	w := &c19World{e: e, r: e.r, ci: ci, tag: fmt.Sprintf("c19x%dx", e.seq), autoCreate: autoCreate, s3: newVS3(),
 		topics: map[string]int32{}, foreignDel: map[string]string{}, kinds: map[string]bool{}}
 	e.watch.prune()
+	if aclRng != nil {
+		cfg, whos, all := c19ACLSetup(aclRng, w.tag)
+		w.aclCfg, w.whos, w.whoAll = &cfg, whos, all
+		w.az = acl.NewAuthorizer(cfg)
+		for _, x := range whos {
+			x := x
+			if w.denied(&x, w.tag+"a") || w.denied(&x, w.tag+"b") || w.denied(&x, w.tag+"u") {
+				w.deniers = append(w.deniers, x)
+			}
+		}
+	}
 	w.topics[w.tag+"a"], w.topics[w.tag+"b"] = partsA, partsB
 	// the cluster's topic snapshot, as the operator publishes it: every broker process loads it at start
 	cid := "kafscale-cluster"
@@ -760,6 +863,10 @@ func (w *c19World) startInst(idx int) bool {
 		return false
 	}
 	b.h.autoCreateTopics = w.autoCreate
+	if w.aclCfg != nil {
+		// ACL enforcement on, as buildAuthorizerFromEnv does from KAFSCALE_ACL_*: every broker process its own authorizer
+		b.h.authorizer = acl.NewAuthorizer(*w.aclCfg)
+	}
 	// no wall-clock flush trigger: an acks=0 append stays buffered until the next acknowledged one
 	b.h.logConfig.Buffer = storage.WriteBufferConfig{MaxBytes: 4 << 20}
 	b.h.s3Health = broker.NewS3HealthMonitor(broker.S3HealthConfig{ErrorWarn: 2, ErrorCrit: 3, LatencyWarn: time.Hour, LatencyCrit: 2 * time.Hour})
@@ -797,8 +904,18 @@ func c19KVStr(kv c19KV, ok bool) string {
 
 func (w *c19World) witness() map[string]any {
 	return map[string]any{"case": w.ci, "seed": w.r.Seed, "tier": w.r.Tier, "auto_create_topics": w.autoCreate,
-		"topics": w.labelTopics(), "steps": w.steps,
+		"topics": w.labelTopics(), "acl": w.aclWitness(), "steps": w.steps,
 		"legend": "brokers 1..3 = NodeID = value a broker writes into /kafscale/partition-leases/<topic>/<p>; lease_key_before/after = linearizable read of that key in the etcd transaction immediately before/after the request (value@mod_revision); T = per-case topic prefix"}
+}
+
+func (w *c19World) aclWitness() any {
+	if w.aclCfg == nil {
+		return "no authorizer configured (ACL enforcement off)"
+	}
+	raw, _ := json.Marshal(w.aclCfg)
+	var v any
+	_ = json.Unmarshal([]byte(w.label(string(raw))), &v)
+	return v
 }
 
 func (w *c19World) labelTopics() map[string]int32 {
@@ -894,16 +1011,25 @@ func (w *c19World) kindOf(b *c19Inst, p c19Part) string {
 }
 
 // call runs one request through Handle, as the connection loop does.
-func (w *c19World) call(b *c19Inst, req *kmsg.ProduceRequest, corr int32) (payload []byte, ok bool) {
+func (w *c19World) call(b *c19Inst, req *kmsg.ProduceRequest, corr int32, who *c19Who) (payload []byte, ok bool) {
 	ctx, cancel := context.WithCancel(context.Background())
 	defer cancel()
+	hdr := &protocol.RequestHeader{APIKey: protocol.APIKeyProduce, APIVersion: 9, CorrelationID: corr}
+	if who != nil && !who.None {
+		if who.Conn {
+			ctx = broker.ContextWithConnInfo(ctx, &broker.ConnContext{Principal: who.Name, RemoteAddr: "10.0.0.9:5555"})
+			hdr.ClientID = kmsg.StringPtr("some-client")
+		} else {
+			hdr.ClientID = kmsg.StringPtr(who.Name)
+		}
+	}
 	done := make(chan struct{})
 	var err error
 	var pv any
 	go func() {
 		defer close(done)
 		defer func() { pv = recover() }()
-		payload, err = b.h.Handle(ctx, &protocol.RequestHeader{APIKey: protocol.APIKeyProduce, APIVersion: 9, CorrelationID: corr}, req)
+		payload, err = b.h.Handle(ctx, hdr, req)
 	}()
 	select {
 	case <-done:
@@ -1056,6 +1182,18 @@ func (w *c19World) produce(b *c19Inst, parts []c19Part, acks int16, rng *rand.Ra
 		nrec := 1 + (n+i)%3
 		entries = append(entries, c19Entry{part: p, batch: id, raw: mkBatch(rng, id, nrec, 8+rng.Intn(40)), nrec: nrec})
 	}
+	// ACL cases: the request's principal (directed openings set w.next; otherwise PRNG)
+	var who *c19Who
+	if w.az != nil {
+		who, w.next = w.next, nil
+		if who == nil {
+			who = &w.whos[rng.Intn(len(w.whos))]
+		}
+	}
+	deniedE := make([]bool, len(entries))
+	for i, e := range entries {
+		deniedE[i] = w.denied(who, e.part.Topic)
+	}
 	// --- ground truth before
 	if _, ok := w.sync(); !ok {
 		return false
@@ -1064,6 +1202,12 @@ func (w *c19World) produce(b *c19Inst, parts []c19Part, acks int16, rng *rand.Ra
 	kinds := map[string]bool{}
 	obs := make([]c19PartObs, len(entries))
 	for i, e := range entries {
+		if w.az != nil {
+			obs[i].ACL = "allowed"
+			if deniedE[i] {
+				obs[i].ACL = "denied"
+			}
+		}
 		obs[i].Kind = w.kindOf(b, e.part)
 		kinds[strings.SplitN(obs[i].Kind, "+", 2)[0]] = true
 		if strings.Contains(obs[i].Kind, "+") {
@@ -1075,7 +1219,8 @@ func (w *c19World) produce(b *c19Inst, parts []c19Part, acks int16, rng *rand.Ra
 		believedBefore[i] = b.h.leaseManager.Owns(e.part.Topic, e.part.P)
 	}
 	s0 := w.s3.eventCount()
-	payload, ok := w.call(b, c19BuildReq(entries, acks), int32(n))
+	req := c19BuildReq(entries, acks)
+	payload, ok := w.call(b, req, int32(n), who)
 	s1 := w.s3.eventCount()
 	fault := b.kv.disarm()
 	if !ok {
@@ -1103,6 +1248,10 @@ func (w *c19World) produce(b *c19Inst, parts []c19Part, acks int16, rng *rand.Ra
 		return false
 	}
 	st := c19Step{N: n, Op: "produce", Broker: b.name(), Detail: fmt.Sprintf("acks=%d", acks), Events: w.evStrings(evs)}
+	if who != nil {
+		st.Who = who.String()
+		w.aclCount(req, entries, obs, deniedE)
+	}
 	if b.unnoticed {
 		st.Detail += " [this broker's etcd session lease has been expired on the server; the broker has not been told yet]"
 	}
@@ -1188,11 +1337,22 @@ func (w *c19World) produce(b *c19Inst, parts []c19Part, acks int16, rng *rand.Ra
 			// reason (unknown topic, partition out of range …): outside this property
 			o.Verdict = "ok: lease held, failed for another reason (not judged by C19)"
 			w.r.Count("failed_while_lease_held_"+c19CodeName(code), 1)
+			if deniedE[i] {
+				w.r.Count("acl_denied_entry_lease_held_"+c19CodeName(code), 1)
+			}
 		default:
 			if o.Writes > 0 {
 				o.Verdict = "VIOLATION: S3 writes without the lease"
 				viols = append(viols, viol{"write_" + w.noLeaseCause(b, key, after, hasAfter, believedBefore[i]),
 					fmt.Sprintf("%s answered %s for %s but wrote %d S3 objects for it while the lease key was %s for the whole request", b.name(), c19CodeName(code), pname, o.Writes, o.After)})
+				break
+			}
+			if deniedE[i] {
+				// the principal may not produce to this topic: which code the entry carries is C24's
+				// business (TOPIC_AUTHORIZATION_FAILED is neither NOT_LEADER nor retriable); C19 only
+				// demanded (above) that nothing was written without the lease
+				o.Verdict = "ok: nothing written (code not judged by C19: topic denied to the principal, see C24)"
+				w.r.Count("acl_denied_entry_lease_not_held_nothing_written_"+c19CodeName(code), 1)
 				break
 			}
 			if b.unnoticed || w.foreignDel[key] == b.id {
@@ -1241,7 +1401,7 @@ func (w *c19World) produce(b *c19Inst, parts []c19Part, acks int16, rng *rand.Ra
 	for _, i := range retry {
 		// the same question once more, alone: a deterministic wrong code repeats, a hiccup does not
 		o := &w.steps[len(w.steps)-1].Parts[i]
-		code2, foreign2, ok := w.askAgain(b, entries[i].part, rng)
+		code2, foreign2, ok := w.askAgain(b, entries[i].part, rng, who)
 		if !ok {
 			return false
 		}
@@ -1279,6 +1439,52 @@ func (w *c19World) produce(b *c19Inst, parts []c19Part, acks int16, rng *rand.Ra
 	}
 	w.s3.mu.Unlock()
 	return w.refreshTopics()
+}
+
+// aclCount: coverage of the ACL x lease combinations of one request, by position in the request.
+// Topics appear in the request in the order c19BuildReq gave them (first appearance in entries).
+func (w *c19World) aclCount(req *kmsg.ProduceRequest, entries []c19Entry, obs []c19PartObs, deniedE []bool) {
+	pos := map[string]int{}
+	for i, t := range req.Topics {
+		pos[t.Topic] = i
+	}
+	firstDenied, nDenied, nAllowed := -1, 0, 0
+	for i, e := range entries {
+		if deniedE[i] {
+			nDenied++
+			if p := pos[e.part.Topic]; firstDenied < 0 || p < firstDenied {
+				firstDenied = p
+			}
+		} else {
+			nAllowed++
+		}
+	}
+	w.r.Count("acl_requests", 1)
+	if nDenied == 0 {
+		return
+	}
+	w.r.Count("acl_requests_with_denied_topic", 1)
+	w.r.Count("acl_denied_entries", int64(nDenied))
+	if nAllowed > 0 {
+		w.r.Count("acl_requests_mixing_denied_and_allowed_topics", 1)
+	}
+	seen := map[string]bool{}
+	for i, e := range entries {
+		if deniedE[i] {
+			w.r.Seen("acl_denied_entry_ownership_kinds", obs[i].Kind)
+			continue
+		}
+		own := strings.SplitN(obs[i].Kind, "+", 2)[0]
+		rel := "after"
+		if pos[e.part.Topic] < firstDenied {
+			rel = "before"
+		}
+		k := "acl_requests_" + own + "_partition_" + rel + "_first_denied_topic"
+		if !seen[k] {
+			seen[k] = true
+			w.r.Count(k, 1)
+		}
+	}
 }
 
 // refreshTopics waits until every live broker's metadata lists the same topics
@@ -1585,14 +1791,14 @@ func (w *c19World) endOfCase() {
 
 // askAgain sends a one-partition produce and reports its code and whether the
 // lease key named one and the same other broker before and after it.
-func (w *c19World) askAgain(b *c19Inst, p c19Part, rng *rand.Rand) (int16, bool, bool) {
+func (w *c19World) askAgain(b *c19Inst, p c19Part, rng *rand.Rand, who *c19Who) (int16, bool, bool) {
 	if _, ok := w.sync(); !ok {
 		return 0, false, false
 	}
 	kv0 := w.lastKV
 	id := fmt.Sprintf("%s-s%d-again", w.tag, len(w.steps))
 	entries := []c19Entry{{part: p, batch: id, raw: mkBatch(rng, id, 1, 16), nrec: 1}}
-	payload, ok := w.call(b, c19BuildReq(entries, 1), 9999)
+	payload, ok := w.call(b, c19BuildReq(entries, 1), 9999, who)
 	if !ok {
 		return 0, false, false
 	}
@@ -1666,6 +1872,101 @@ func (w *c19World) pickParts(b *c19Inst, rng *rand.Rand) []c19Part {
 	return out
 }
 
+// pickPartsACL (ACL cases): draws the request's principal and its partitions. Starting from pickParts'
+// ownership mix it makes sure (when the case's topics allow it) that the request names at least one topic
+// the principal may not produce to AND one it may, so that denied and judged entries share a request in
+// PRNG order (pickParts' final shuffle decides which topic comes first).
+func (w *c19World) pickPartsACL(b *c19Inst, rng *rand.Rand) []c19Part {
+	who := w.whos[rng.Intn(len(w.whos))]
+	if len(w.deniers) > 0 && rng.Intn(10) < 7 {
+		who = w.deniers[rng.Intn(len(w.deniers))]
+	}
+	w.next = &who
+	out := w.pickParts(b, rng)
+	if rng.Intn(10) == 0 {
+		return out
+	}
+	have := map[c19Part]bool{}
+	perTopic := map[string]int{}
+	nDenied, nAllowed := 0, 0
+	for _, p := range out {
+		have[p] = true
+		perTopic[p.Topic]++
+		if w.denied(&who, p.Topic) {
+			nDenied++
+		} else {
+			nAllowed++
+		}
+	}
+	addOne := func(wantDenied bool) {
+		var cand []c19Part
+		for _, p := range w.universe(false) {
+			if have[p] || w.denied(&who, p.Topic) != wantDenied {
+				continue
+			}
+			if _, exists := w.topics[p.Topic]; !exists && w.autoCreate && perTopic[p.Topic] > 0 {
+				continue // same constraint as pickParts: one partition of a not-yet-existing topic per request
+			}
+			cand = append(cand, p)
+		}
+		if len(cand) > 0 {
+			p := cand[rng.Intn(len(cand))]
+			have[p] = true
+			perTopic[p.Topic]++
+			out = append(out, p)
+		}
+	}
+	if nDenied == 0 {
+		addOne(true)
+	}
+	if nAllowed == 0 {
+		addOne(false)
+	}
+	if rng.Intn(2) == 0 {
+		addOne(false) // one more judged entry: more own/foreign/unowned slots behind or in front of the denied topic
+	}
+	rng.Shuffle(len(out), func(i, j int) { out[i], out[j] = out[j], out[i] })
+	return out
+}
+
+// scriptACL: directed opening of an ACL case. Two brokers take the case's partitions with an unrestricted
+// principal (three PRNG splits), then 3-5 requests by PRNG brokers carry a restricted principal and mix a
+// topic denied to it with own / foreign / unowned partitions of topics it may produce to, in PRNG order.
+func (w *c19World) scriptACL(rng *rand.Rand) bool {
+	perm := rng.Perm(3)
+	A, B := w.cur[perm[0]], w.cur[perm[1]]
+	ta, tb := w.tag+"a", w.tag+"b"
+	a0, a1, b0 := c19Part{ta, 0}, c19Part{ta, 1}, c19Part{tb, 0}
+	ok := true
+	PA := func(b *c19Inst, parts ...c19Part) {
+		if ok {
+			all := w.whoAll
+			w.next = &all
+			ok = w.produce(w.cur[b.idx], parts, -1, rng)
+		}
+	}
+	switch rng.Intn(4) {
+	case 0:
+		PA(A, a0, a1)
+		PA(B, b0)
+	case 1:
+		PA(A, a0, b0)
+		PA(B, a1)
+	case 2:
+		PA(A, b0)
+		PA(B, a0, a1)
+	default:
+		PA(A, a0) // a1 and b0 stay unowned: their leases are acquired by whoever asks first
+	}
+	k := 3 + rng.Intn(3)
+	for i := 0; i < k && ok; i++ {
+		b := w.cur[rng.Intn(3)]
+		parts := w.pickPartsACL(b, rng)
+		ok = w.produce(b, parts, c19Acks(rng), rng)
+	}
+	return ok
+}
+
 func c19Acks(rng *rand.Rand) int16 {
 	switch rng.Intn(10) {
 	case 0:
@@ -1682,7 +1983,12 @@ func (w *c19World) randomStep(rng *rand.Rand) bool {
 	x := rng.Intn(100)
 	switch {
 	case x < 56:
-		parts := w.pickParts(b, rng)
+		var parts []c19Part
+		if w.az != nil {
+			parts = w.pickPartsACL(b, rng)
+		} else {
+			parts = w.pickParts(b, rng)
+		}
 		if rng.Intn(6) == 0 {
 			// the lease manager's etcd request for one of the partitions fails
 			b.kv.arm(parts[rng.Intn(len(parts))].key(), []string{"before", "after"}[rng.Intn(2)])
@@ -1818,19 +2124,22 @@ func c19Sig(w *c19World) string {
 	fmt.Fprintf(&sb, "ac=%v;", w.autoCreate)
 	for _, st := range w.steps {
 		fmt.Fprintf(&sb, "%s:%s", st.Op, strings.SplitN(st.Broker, "#", 2)[0])
+		if st.Who != "" {
+			fmt.Fprintf(&sb, "<%s>", st.Who)
+		}
 		for _, p := range st.Parts {
 			c := "-"
 			if p.Code != nil {
 				c = fmt.Sprint(*p.Code)
 			}
-			fmt.Fprintf(&sb, "[%s %s %s %s>%s w%d]", p.Part, p.Kind, c, strings.SplitN(p.Before, "@", 2)[0], strings.SplitN(p.After, "@", 2)[0], p.Writes)
+			fmt.Fprintf(&sb, "[%s %s%s %s %s>%s w%d]", p.Part, p.Kind, map[string]string{"": "", "allowed": "", "denied": " DENIED"}[p.ACL], c, strings.SplitN(p.Before, "@", 2)[0], strings.SplitN(p.After, "@", 2)[0], p.Writes)
 		}
 		sb.WriteString(";")
 	}
 	return sb.String()
 }
 
-const c19Rule = "3 real broker handlers (EtcdStore + real PartitionLeaseManager each) over one embedded etcd and one attributing fake S3; PRNG case = directed opening + random tail of steps {produce (1-4 partitions mixing own / foreign / unowned / unknown-topic / beyond-count, acks -1/1/0), Release, ReleaseAll, server-side lease expiry with or without the broker being told, notice, crash+restart with the same broker id, expiry of a dead process's lease}. Ground truth = the etcd lease key read in one transaction immediately before and after each request (value@mod_revision), cross-checked with a WithPrevKV watch log. Oracle per partition entry: code 0 => the key names this broker after the request (violation only if the key was unchanged across the request and named another broker or nobody); key unchanged and naming another broker => NOT_LEADER_OR_FOLLOWER (a retriable other code is re-asked once); key absent and unchanged => kerr-retriable code; lease never held during the request => zero S3 uploads by this broker instance under that partition's prefix (also for acks=0). Non-trivial case = had a request mixing >=2 ownership kinds, a success under a held lease and a foreign-owner rejection."
+const c19Rule = "3 real broker handlers (EtcdStore + real PartitionLeaseManager each) over one embedded etcd and one attributing fake S3; PRNG case = directed opening + random tail of steps {produce (1-4 partitions mixing own / foreign / unowned / unknown-topic / beyond-count, acks -1/1/0), Release, ReleaseAll, server-side lease expiry with or without the broker being told, notice, crash+restart with the same broker id, expiry of a dead process's lease}. Ground truth = the etcd lease key read in one transaction immediately before and after each request (value@mod_revision), cross-checked with a WithPrevKV watch log. Oracle per partition entry: code 0 => the key names this broker after the request (violation only if the key was unchanged across the request and named another broker or nobody); key unchanged and naming another broker => NOT_LEADER_OR_FOLLOWER (a retriable other code is re-asked once); key absent and unchanged => kerr-retriable code; lease never held during the request => zero S3 uploads by this broker instance under that partition's prefix (also for acks=0). Non-trivial case = had a request mixing >=2 ownership kinds, a success under a held lease and a foreign-owner rejection. ACL CASES (a further half as many cases, own PRNG streams): every broker handler gets an enabled acl.Authorizer (PRNG profile: default allow + per-principal deny rules, or default deny + allow rules; exact and trailing-* topic names) and every produce request carries a PRNG principal (client id, connection principal, or none = anonymous); after a directed opening (two brokers take the partitions with an unrestricted principal, then 3-5 requests of a restricted principal) the same random tail runs. Requests are built so that a topic denied to the principal shares the request with own / foreign / unowned partitions of topics it may produce to, the topic order being a PRNG shuffle (floors: foreign, own and unowned partitions behind the first denied topic, foreign ones in front of it). The oracle for entries of allowed topics is unchanged; for an entry of a denied topic (decided by the harness's own acl.Authorizer built from the same config) code 0 and S3 uploads still require the lease, but which error code it carries is not judged here (C24 judges it)."
 
 func TestVerifC19(t *testing.T) {
 	r := verifkit.Start(t, "C19", "lease")
@@ -1850,18 +2159,31 @@ func TestVerifC19(t *testing.T) {
 
 func c19SeqCases(env *c19Env, r *verifkit.Run) {
 	n := r.N(80, 1000)
+	nACL := r.N(40, 500)
 	troubles := 0
 	var tSetup, tRun, tClose time.Duration
 	defer func() {
 		r.Note("diag_wall_split_s", map[string]float64{"setup": tSetup.Seconds(), "steps": tRun.Seconds(), "close": tClose.Seconds()})
 	}()
-	for ci := 0; ci < n; ci++ {
+	for ci := 0; ci < n+nACL; ci++ {
 		rng := r.Rand(ci)
 		t0 := time.Now()
-		w := env.newWorld(ci, rng.Intn(2) == 0, 2+int32(rng.Intn(2)), 1+int32(rng.Intn(2)))
+		// cases n .. n+nACL-1 are the ACL cases (own PRNG streams: the first n cases are what they were without them)
+		aclCase := ci >= n
+		var w *c19World
+		if aclCase {
+			rng = r.Rand(2000000 + ci - n)
+			w = env.newWorld(2000000+ci-n, rng.Intn(2) == 0, 2+int32(rng.Intn(2)), 1+int32(rng.Intn(2)), rng)
+		} else {
+			w = env.newWorld(ci, rng.Intn(2) == 0, 2+int32(rng.Intn(2)), 1+int32(rng.Intn(2)), nil)
+		}
 		tSetup += time.Since(t0)
 		t0 = time.Now()
-		if w.trouble == "" && w.script(rng) {
+		opening := w.script
+		if aclCase && rng.Intn(4) > 0 {
+			opening = w.scriptACL // the other ACL cases run the ordinary openings with PRNG principals
+		}
+		if w.trouble == "" && opening(rng) {
 			tail := 3 + rng.Intn(7)
 			for i := 0; i < tail && w.trouble == ""; i++ {
 				if !w.randomStep(rng) {
@@ -1896,10 +2218,18 @@ func c19SeqCases(env *c19Env, r *verifkit.Run) {
 		if w.nHandover > 0 {
 			r.Count("cases_with_partition_acked_by_two_brokers", 1)
 		}
-		if ci < 2 {
+		if ci < 2 || ci == n {
 			r.Sample(w.witness())
 		}
+		if aclCase {
+			r.Count("acl_cases", 1)
+		}
 	}
+	r.Floor("acl_requests_mixing_denied_and_allowed_topics", 40)
+	r.Floor("acl_requests_foreign_partition_after_first_denied_topic", 10)
+	r.Floor("acl_requests_foreign_partition_before_first_denied_topic", 10)
+	r.Floor("acl_requests_own_partition_after_first_denied_topic", 10)
+	r.Floor("acl_requests_unowned_partition_after_first_denied_topic", 10)
 	r.Floor("success_lease_held", 100)
 	r.Floor("foreign_rejected_not_leader", 50)
 	r.Floor("requests_mixing_ownership_kinds", 50)
@@ -1947,7 +2277,7 @@ func c19ConcCases(env *c19Env, r *verifkit.Run) {
 	troubles := 0
 	for ci := 0; ci < n; ci++ {
 		rng := r.Rand(1000000 + ci)
-		w := env.newWorld(1000000+ci, false, 2, 1)
+		w := env.newWorld(1000000+ci, false, 2, 1, nil)
 		if w.trouble == "" {
 			c19ConcCase(w, rng)
 		}
@@ -2011,7 +2341,7 @@ func c19ConcCase(w *c19World, rng *rand.Rand) {
 				if x := inflight.Add(1); x > maxInflight.Load() {
 					maxInflight.Store(x)
 				}
-				payload, ok := w.call(b, c19BuildReq(entries, -1), int32(c*100+q))
+				payload, ok := w.call(b, c19BuildReq(entries, -1), int32(c*100+q), nil)
 				inflight.Add(-1)
 				rec.s1 = w.s3.eventCount()
 				if ok {
